@@ -431,6 +431,18 @@ func (pe *PolicyEngine) insertWorkload(rs interface{}, kind string) error {
 		// update cache with new pod associated to to its owner
 		pe.cache.addPod(podObj, podStr.String())
 	}
+	// an existing workload is updated to fewer replicas: the pods that were generated for its earlier version beyond
+	// the current ones are not part of it anymore (at most two pods are generated per workload)
+	if podObj != nil {
+		for index := len(pods) + 1; index <= 2; index++ {
+			oldStr := types.NamespacedName{Namespace: podObj.Namespace, Name: fmt.Sprintf("%s-%d", podObj.Owner.Name, index)}.String()
+			if old, exists := pe.podsMap[oldStr]; exists && old.Owner.Name == podObj.Owner.Name && old.Owner.Kind == kind {
+				pe.cache.deletePod(old, oldStr)
+				delete(pe.podsMap, oldStr)
+				pe.cache.clear()
+			}
+		}
+	}
 	// running this on last podObj: as all pods from same workload object are in same namespace and having same pod labels
 	if pe.exposureAnalysisFlag {
 		err = pe.removeRedundantRepresentativePeers(podObj)
